@@ -842,6 +842,15 @@ def directed_programs():
             for tn, t in tsts[:3]:
                 th, el = then_else(15)
                 mk('E_%s_%s_%s' % (reg, mn, tn), [asg(V(reg), V('a')), mid, ('if', t(V(reg)), th, el)], hw=True)
+    #    ... and a load() of a memory operand followed by a zero test of the same operand: 8-bit, 16-bit (load() reads
+    #    the low byte only: the test must still look at both), array elements; the test guards a hardware access
+    for on, o in (('a', V('a')), ('s', V('s')), ('t', V('t')), ('arr2', ('idx', 'arr', N(2))), ('arrx', ('idx', 'arr', V('X')))):
+        for tn, t in tsts:
+            mk('E_loadmem_%s_%s' % (on, tn), [('load', o), ('if', t(o), ('block', [('strobe', 'HW0'), asg(V('c'), N(1))]), ('block', [asg(V('c'), N(2))]))], hw=True)
+            # (the same with nothing but the hardware access in the branch: the final state says nothing, the trace does)
+            mk('E_loadhw_%s_%s' % (on, tn), [('load', o), ('if', t(o), ('block', [('strobe', 'HW0')]), None), ('store', V('d'))], hw=True)
+        mk('E_loadmem_do_%s' % on, [asg(V('i'), N(0)), ('do', ('block', [('strobe', 'HW0'), ('expr', ('inc', 'x++', V('i'))), ('if', ('bin', '==', V('i'), N(3)), ('break',), None),
+                                                                       ('expr', ('asg', '-=', o, N(1))), ('load', o)]), o)], hw=True)
     # G. an instruction whose only effect on what follows is N and Z: a reload after a store, OR with 0
     loop = ('for', ('asg', '=', V('i'), N(1)), ('bin', '!=', V('i'), N(0)), ('inc', '--x', V('i')), ('block', [asg(V('b'), V('a'))]))
     for tn, t in tsts:
@@ -943,6 +952,17 @@ def directed_programs():
         mk('T_tern_cmp_%s' % tn, [asg(V('s'), ('tern', ('bin', '<', V('a'), V('b')), x1, x2)), asg(V('c'), ('tern', V('a'), V('b'), N(3)))])
     mk('T_tern_nested', [asg(V('s'), ('tern', V('a'), ('tern', V('b'), N(300), N(400)), N(500)))])
     mk('T_tern_add', [asg(V('s'), ('bin', '+', ('tern', V('a'), V('t'), N(256)), N(1)))])
+    # P. two names for one cell: a read through a pointer indexed by Y, a write to the cell BY NAME (or through
+    #    another pointer), the same read again with Y unchanged
+    PTR = [('unsigned char *', 'p', None, None, ''), ('unsigned char *', 'q', None, None, '')]
+    for tn, setp, k, cell in (('arr', asg(V('p'), V('arr')), 1, ('idx', 'arr', N(1))), ('arr3', asg(V('p'), V('arr')), 3, ('idx', 'arr', N(3))),
+                              ('scalar', asg(V('p'), ('addr', 'a')), 0, V('a'))):
+        for sn, store in (('stx', [asg(cell, V('X'))]), ('sty', [asg(cell, V('Y'))]), ('const', [asg(cell, N(7))]), ('var', [asg(cell, V('b'))]),
+                          ('inc', [('expr', ('inc', 'x++', cell))]), ('add', [('expr', ('asg', '+=', cell, N(2)))]),
+                          ('viaq', [asg(V('q'), V('p')), asg(('idx', 'q', V('Y')), V('X'))]), ('derefq', [asg(V('q'), ('bin', '+', V('p'), N(k))) if False else asg(V('q'), V('p')), asg(('idx', 'q', V('Y')), N(9))])):
+            mk('P_%s_%s' % (tn, sn), [setp, asg(V('Y'), N(k)), asg(V('X'), N(5)), asg(V('c'), ('idx', 'p', V('Y')))] + store + [asg(V('d'), ('idx', 'p', V('Y')))], extra=PTR)
+            mk('P2_%s_%s' % (tn, sn), [setp, asg(V('Y'), N(k)), asg(V('X'), N(5)), ('if', ('idx', 'p', V('Y')), asg(V('c'), N(1)), None)] + store +
+                                         [('if', ('bin', '==', ('idx', 'p', V('Y')), N(5)), asg(V('d'), N(1)), asg(V('d'), N(2)))], extra=PTR)
     for n_, x in enumerate(('s', 't')):
         mk('N_first16_%s' % x, [('if', V('a'), asg(V('a'), N(7)), None), asg(V(x), N(500)), asg(V('b'), ('bin', '+', V(x), N(1))),
                                 asg(V('s' if x == 't' else 't'), ('bin', '+', V(x), N(300)))])
